@@ -891,6 +891,12 @@ m("c12-upgrade-repair-unconditional", "C12", "app/upgrades/v1.8.0/upgrades.go",
 m("c17-zero-target-unguarded", "C17", "x/feemarket/keeper/eip1559.go",
   "\tif parentGasTarget == 0 {", "\tif parentGasTarget == 0 && parentGasUsed == 0 {",
   "target-divisor-non-zero", "the zero-target guard only covers empty blocks")
+m("c09-vesting-end-unbounded", "C09", "x/vesting/types/msg.go",
+  "\tif err := validateScheduleEnd(msg.StartTime, msg.VestingPeriods); err != nil {\n\t\treturn err\n\t}\n", "",
+  "VestingPeriods/end-fits-int64", "the vesting periods' running end is not bounded", count=2)
+m("c09-overflow-test-ignored", "C09", "x/vesting/types/msg.go",
+  "\tif err := validateScheduleEnd(msg.StartTime, msg.LockupPeriods); err != nil {\n\t\treturn err\n\t}\n", "\t_ = validateScheduleEnd(msg.StartTime, msg.LockupPeriods)\n",
+  "LockupPeriods/end-fits-int64", "the overflow test's verdict is dropped", count=2)
 for prop in ("C16", "C07"):
     m("c%s-gas-meter-without-precharge" % prop[1:], prop, "precompiles/common/precompile.go",
       "sdk.NewGasMeter(initialGas + contract.Gas)", "sdk.NewGasMeter(contract.Gas)",
